@@ -515,6 +515,9 @@ func (m *Model) onDeliver(ctx *StepCtx) {
 		}
 		if old, clash := m.sess[up]; clash {
 			s.violate("C04", "seid.unique", "seid:duplicate", "Establishment Response hands out UP SEID %#x which live session (CP %#x, node %s) already holds", up, old.CP, old.Node)
+			// C08: "a UP F-SEID that from then on addresses the new session" — not one that
+			// (also) addresses a session established earlier and never deleted
+			s.violate("C08", "rsp.fseid-addresses-new-session", "rsp:fseid-in-use", "Establishment Response (CP SEID %#x) returns UP F-SEID %#x, which already addresses the live session with CP SEID %#x of node %s", in.CPSEID, up, old.CP, old.Node)
 		}
 		m.incs[up]++
 		x.Inc = m.incs[up]
